@@ -478,6 +478,22 @@ def boundary_cases():
     out.append(dict(gen="darr", p=dict(kind="darr", names=[["", "b"], [0, 1]], array=[[0, 0], [0, 1]], dtype="int"), block="enum"))
     out.append(dict(gen="darr", p=dict(kind="darr", names=[[""]], array=[0.0]), block="enum"))
     out.append(dict(gen="darr", p=dict(kind="dmat", dists=[[["a", "b"], 0.0], [["b", "a"], 0.0]]), block="enum"))
+    # NOT symmetric: built from an asymmetric dict of pairs / edited in place / calculator output edited; every cell both ways
+    asym = [[["a", "b"], 1.0], [["b", "a"], 7.5], [["a", "c"], 2.0], [["c", "a"], 9.0], [["b", "c"], 3.0], [["c", "b"], "nan"]]
+    sym = [[["a", "b"], 0.1], [["b", "a"], 0.1], [["a", "c"], 0.3], [["c", "a"], 0.3], [["b", "c"], 0.2], [["c", "b"], 0.2]]
+    out.append(dict(gen="darr", p=dict(kind="dmat", dists=asym), block="enum"))
+    out.append(dict(gen="darr", p=dict(kind="dmat", dists=asym, ops=[["json"], ["setitem", "a", "b", 4.0]]), block="enum"))
+    out.append(dict(gen="darr", p=dict(kind="dmat", dists=sym, ops=[["setitem", "c", "a", 7.5]]), block="enum"))
+    out.append(dict(gen="darr", p=dict(kind="dmat", dists=sym, ops=[["setitem", "c", "a", "nan"], ["take_dists", ["a", "c"], False]]), block="enum"))
+    out.append(dict(gen="darr", p=dict(kind="dmat_aln", seqs={"a": "ACGTACGT", "b": "ACGAACGT", "c": "TCGAACGA"}, calc="pdist", ops=[["setitem", "c", "a", 7.5]]), block="enum"))
+    out.append(dict(gen="darr", p=dict(kind="dmat_aln", seqs={"a": "ACGTACGT", "b": "ACGAACGT", "c": "TCGAACGA"}, calc="jc69", ops=[["setitem", "a", "b", 0.0]]), block="enum"))
+    out.append(dict(gen="darr", p=dict(kind="dmat_array", names=["a", "b", "c"], array=[[0, 1, 2], [7.5, 0, 3], [9, 8, 0]]), block="enum"))
+    out.append(dict(gen="darr", p=dict(kind="darr", names=[["a", "b", "c"], ["a", "b", "c"]], array=[[0, 1, 2], [7.5, 0, 3], [9, 8, 0]]), block="enum"))
+    out.append(dict(gen="darr", p=dict(kind="darr", names=[["a", "b"], ["a", "b"]], array=[[1, 2], [3, 4]], dtype="int", ops=[["T"]]), block="enum"))
+    held = {"$": dict(gen="dmat", p=dict(dists=asym))}
+    held2 = {"$": dict(gen="dmat", p=dict(dists=sym, set=[["c", "a", 7.5]]))}
+    out.append(dict(gen="result", p=dict(kind="generic", source="x.fa", items=[["dm", held], ["dm2", held2]]), block="enum"))
+    out.append(dict(gen="result", p=dict(kind="tabular", source="x.fa", items=[["dm", held], ["dm2", held2]]), block="enum"))
     out.append(dict(gen="darr", p=dict(kind="dmat_array", names=["c", "a", "b"], array=[[0, 1, 2], [1, 0, 3], [2, 3, 0]]), block="enum"))
     out.append(dict(gen="darr", p=dict(kind="dmat_array", names=["a", "b"], array=[[5, 1], [1, 0]]), block="enum"))
     out.append(dict(gen="darr", p=dict(kind="dmat_array", names=["a", "b", "c"], array=[[0, 1, 2.5], [1.5, 0, 3], [2, 3, 0]]), block="enum"))
@@ -510,11 +526,23 @@ def rand_darr(rng):
     if r < 0.7:
         names = rng.sample(["a", "b", "c", "d", "e"], rng.choice([2, 3, 4]))
         dists = []
+        vals = [0.1, 0.25, 0.0, 1.5, 0.3333333333333333, 7.5, 2.0]
+        shape = rng.choice(["sym", "sym", "asym", "asym", "upper", "lower"])
         for i, x in enumerate(names):
             for y in names[i + 1:]:
-                v = rng.choice([0.1, 0.25, 0.0, 1.5, 0.3333333333333333])
-                dists += [[[x, y], v], [[y, x], v]]
+                v = rng.choice(vals)
+                w = v if shape == "sym" else rng.choice(vals + ["nan"])
+                if shape in ("sym", "asym"):
+                    dists += [[[x, y], v], [[y, x], w]]        # asym: the two triangles are independent
+                elif shape == "upper":
+                    dists += [[[x, y], v]]                       # one triangle only: the constructor mirrors it
+                else:
+                    dists += [[[y, x], v]]
         ops = []
+        if rng.random() < 0.4:
+            # a matrix edited in place afterwards: one cell, not its mirror
+            a, b = rng.sample(names, 2)
+            ops.append(["setitem", a, b, rng.choice(vals + ["nan"])])
         if rng.random() < 0.4:
             ops.append(["take_dists", rng.sample(names, rng.randint(2, len(names))), rng.random() < 0.3])
         if rng.random() < 0.2:
@@ -525,6 +553,10 @@ def rand_darr(rng):
         if rng.random() < 0.4:
             seqs["c"] = "-" * 8 if rng.random() < 0.5 else "NNNNNNNN"
         ops = [["drop_invalid"]] if rng.random() < 0.3 else []
+        if rng.random() < 0.5:
+            ops.append(["setitem", rng.choice(["a", "b"]), rng.choice(["b", "a"]), rng.choice([7.5, 0.125, "nan"])])   # calculator output, then edited
+            if rng.random() < 0.3:
+                ops.append(["json"])
         return dict(gen="darr", p=dict(kind="dmat_aln", seqs=seqs, calc=rng.choice(["pdist", "jc69", "tn93", "paralinear", "logdet"]), ops=ops), block="random")
     seqs = {nm: rstr(rng, "ACGT", 6) for nm in ["a", "b", "c"]}
     return dict(gen="darr", p=dict(kind="profile", what=rng.choice(["counts", "probs", "counts_seq", "pssm"]), seqs=seqs), block="random")
@@ -888,7 +920,8 @@ def compare_case(rep, c, r, stats):
                 if key in reported:
                     continue
                 reported.add(key)
-            elif obs.get("kind") == "dmat" and family == "json" and field_of(d) in ("names", "arr"):
+            elif (obs.get("kind") == "dmat" and family == "json" and field_of(d) in ("names", "arr")
+                  and (obs["names"] != sorted(obs["names"]) or any(row[i] not in (0, 0.0) for i, row in enumerate(obs["arr"])))):
                 # the decoder rebuilds the matrix from the pair keys: names come back sorted, the diagonal as 0.0
                 # (Properties/C10.v dmat_name_order_refuted / dmat_diagonal_refuted): one finding
                 key = "darr:DistanceMatrix:json:names"
